@@ -17,12 +17,38 @@ SCHED_SCENARIOS = [
 ]
 
 
+def apalache(run):
+    """Inductive invariant of the once-cell protocol for 8 threads (Apalache, symbolic): initiation, consecution, and
+    IndInv => NoPartialInit.  TLC explores 2-3 threads; this closes the gap for the initialisation protocol."""
+    import os, subprocess, re
+    d = os.path.join(tlc.WORK, "apalache")
+    os.makedirs(d, exist_ok=True)
+    spec = os.path.join(tlc.SPEC, "apalache", "OnceInit.tla")
+    obligations = [("initiation", ["--init=Init", "--inv=IndInv", "--length=0"]), ("consecution", ["--init=IndInit", "--inv=IndInv", "--length=1"]),
+                   ("implies-NoPartialInit", ["--init=IndInit", "--inv=NoPartialInit", "--length=0"])]
+    ok = 0
+    for name, args in obligations:
+        try:
+            p = subprocess.run(["apalache-mc", "check", "--cinit=ConstInit", "--out-dir=" + d] + args + [spec], cwd=d, stdout=subprocess.PIPE, stderr=subprocess.STDOUT, text=True, timeout=900)
+        except subprocess.TimeoutExpired:
+            raise tlc.ToolError("apalache timed out on " + name)
+        if "EXITCODE: OK" in p.stdout:
+            ok += 1
+        elif "EXITCODE: ERROR (12)" in p.stdout or "violat" in p.stdout.lower():
+            run.violation("C13/model/OnceInit/" + name, "Apalache: inductive-invariant obligation %s fails for the once-cell protocol" % name, {"family": "apalache", "output": p.stdout[-3000:]})
+        else:
+            raise tlc.ToolError("apalache gave no verdict on %s:\n%s" % (name, p.stdout[-1500:]))
+    run.extra["apalache_obligations"] = {"checked": len(obligations), "ok": ok, "threads": 8}
+    run.leg("M:Apalache/OnceInit", obligations=len(obligations), ok=ok, threads=8)
+
+
 def check(run):
     thorough = run.tier == "thorough"
     run.rules.append("leg M: the Engine model (once-cell with four built-in stages, one mutex per registry with separate acquire/release steps, evaluations as plans of lookups and handler "
                      "invocations, re-entrant handlers as nested frames) on first-use races of 2 and 3 threads, re-entrant configurations and the fine-grained F1 configuration: NoPartialInit, "
                      "BuiltinsComplete, OneLockAtATime, NoLockInHandler, TLC deadlock check, EvalReadsOnly, termination under fairness, and linearizability against the atomic engine "
-                     "(LinearizableOrF1: the only non-linearizable histories are evaluations made of several critical sections overlapped by a conflicting call)")
+                     "(LinearizableOrF1: the only non-linearizable histories are evaluations made of several critical sections overlapped by a conflicting call); "
+                     "for the initialisation protocol alone, an inductive invariant implying NoPartialInit is discharged by Apalache for 8 threads (initiation, consecution, implication)")
     run.rules.append("leg R: first-use scenarios executed in fresh child processes under forced schedules (every thread order over the first %d yield points: init stages and registry accesses, "
                      "controller releases one thread per step); the schedule drives, the recorded trace decides; "
                      "leg T: %d free-running stress runs (2-%d threads, registrations and evaluations of fresh names and built-in overrides, fresh process each so that first-use races are real); "
@@ -30,6 +56,7 @@ def check(run):
                      "explain every result, no registry access before the fourth built-in stage except by the initialiser, handler = resolved handler, no registry lock at handler entry; "
                      "non-trivial = run with >= 2 threads and a registration" % (8 if thorough else 6, 1500 if thorough else 150, 8 if thorough else 6))
     eng.model(run)
+    apalache(run)
     # R: forced schedules
     k = 8 if thorough else 6
     scenarios = []
